@@ -20,11 +20,11 @@ VERIF = os.path.dirname(os.path.dirname(os.path.abspath(__file__)))
 
 
 class Ctx:
-    def __init__(self, prop, tier='quick', root=None, quiet=False):
+    def __init__(self, prop, tier='quick', root=None, quiet=False, normalise=True):
         self.prop = prop
         self.tier = tier
         self.root = root or REPO
-        self.prog = Program(self.root)
+        self.prog = Program(self.root, normalise=normalise)
         self.res = Resolver(self.prog)
         self.obligations = []   # dicts: rule, what, ok, site
         self.violations = []    # dicts: rule, key, msg, site, detail
